@@ -54,6 +54,7 @@ class Registry:
         self.builtin_types = {"float", "int", "str", "dict", "list", "tuple", "bytes", "bool", "set", "Exception", "object"}
         self.import_ok = set()
         self.setattr_hooks = {}
+        self.obj_props = {}
         self.context_handlers = {}
         install_builtins(self)
         install_arrays(self)
